@@ -163,6 +163,22 @@ func shrink(cs c18case, stage string) c18case {
 				}
 			}
 		}
+		// hoist one element of a lone slice of structs
+		if len(cur.t.fields) == 1 {
+			f, fv := cur.t.fields[0], cur.v.fields[0]
+			if f.typ.kind == fSlice && f.typ.elem.kind == fStruct && f.typ.elem.fixed == nil && len(f.typ.elem.fields) > 0 {
+				for _, ev := range fv.elems {
+					if ev.zero {
+						continue
+					}
+					cand := c18case{t: withFields(f.typ.elem, f.typ.elem.fields), v: &val{fields: ev.fields}, params: ""}
+					if same(cand) {
+						cur, changed = cand, true
+						break
+					}
+				}
+			}
+		}
 		// drop parameters that cannot take the value out of the domain
 		for i, f := range cur.t.fields {
 			try := func(mut func(g *ffield)) {
